@@ -44,6 +44,10 @@ inductive Sock where
   | turn (relayed : Addr)
 deriving DecidableEq, Repr, Inhabited
 
+/-- `send_to` is not supported on the listener wrapper: the reply is attempted and fails -/
+def Sock.canSend : Sock → Bool
+  | .tcpListener _ => false | _ => true
+
 def Sock.isTcpStream : Sock → Bool
   | .tcpStream _ => true | _ => false
 
@@ -63,13 +67,14 @@ structure St where
   nominated : Option Bool            -- `nomination_complete`
   pending : List Bytes               -- keys of `pending_transactions`
   latching : Bool                    -- `config.enable_latching`
+  webrtc : Bool                      -- `config.transport_mode == TransportMode::WebRtc`
 deriving DecidableEq, Repr, Inhabited
 
-/-- a decoded STUN request as `handle_stun_request` sees it, plus what it does not look at -/
+/-- a decoded STUN request as `handle_stun_request` sees it -/
 structure Req where
   tx : Bytes
   useCandidate : Bool
-  authentic : Bool     -- carries this session's USERNAME and a MESSAGE-INTEGRITY valid under the local password
+  accepted : Bool      -- result of `stun_request_authenticated(packet, inner)` on the raw datagram
 deriving DecidableEq, Repr
 
 /-- what `handle_packet` does with one datagram, as an abstract input -/
@@ -179,12 +184,17 @@ def useCandidate (s : St) (sock : Sock) (src : Addr) : St :=
       { s with selected := if shouldSelect s p then some p else s.selected, state := .connected, nominated := some true }
     | none => { s with nominated := some true }
 
-/-- `handle_stun_request` (the reply is sent first, unconditionally) -/
-def handleRequest (s : St) (sock : Sock) (src : Addr) (r : Req) : St :=
+/-- `handle_stun_request` after the reply and the `if !authenticated { return; }` gate -/
+def handleAuthenticated (s : St) (sock : Sock) (src : Addr) (r : Req) : St :=
   let s1 := learn s sock src
   let s2 := latch s1 src
   let s3 := tcpNominate s2 sock src
   if r.useCandidate then useCandidate s3 sock src else s3
+
+/-- `handle_packet`'s request arm + `handle_stun_request`: the reply is sent first, unconditionally;
+`authenticated = transport_mode != WebRtc || stun_request_authenticated(..)` gates everything else -/
+def handleRequest (s : St) (sock : Sock) (src : Addr) (r : Req) : St :=
+  if !s.webrtc || r.accepted then handleAuthenticated s sock src r else s
 
 /-- response dispatch: `map.remove(&msg.transaction_id)` -/
 def handleResponse (s : St) (tx : Bytes) : St × Option Bytes :=
@@ -197,25 +207,72 @@ def step (s : St) (sock : Sock) (src : Addr) (i : Inp) : St × Out :=
   | .data => (s, { forwarded := true })
   | .undecodable => (s, {})
   | .indication => (s, {})
-  | .request r => (handleRequest s sock src r, { replied := true })
+  | .request r => (handleRequest s sock src r, { replied := sock.canSend })
   | .response tx _ =>
     let (s', d) := handleResponse s tx
     (s', { delivered := d })
 
+/-! ### the credential check of the code, on raw bytes -/
+
+/-- loop of `stun::verify_message_integrity` from byte offset `off` (`rest = pkt.drop off`) -/
+def verifyLoop (P : Prims) (key pkt : Bytes) (off : Nat) (rest : Bytes) : Bool :=
+  match rest with
+  | t0 :: t1 :: l0 :: l1 :: body =>
+    if rd16 l0 l1 > body.length then false
+    else if rd16 t0 t1 = 8 then
+      rd16 l0 l1 = 20 && body.take 20 = P.hmac key (writeLen (pkt.take off) (off - 20 + 24))
+    else verifyLoop P key pkt (off + 4 + rd16 l0 l1 + pad4 (rd16 l0 l1)) (body.drop (rd16 l0 l1 + pad4 (rd16 l0 l1)))
+  | _ => false
+termination_by rest.length
+decreasing_by simp only [List.length_drop, List.length_cons]; omega
+
+/-- `stun::verify_message_integrity` -/
+def verifyMI (P : Prims) (key pkt : Bytes) : Bool := verifyLoop P key pkt 20 (pkt.drop 20)
+
+/-- loop of `shared_tcp::username_from_stun_bytes` -/
+def usernameLoop (off : Nat) (rest : Bytes) : Option (Nat × Bytes) :=
+  match rest with
+  | t0 :: t1 :: l0 :: l1 :: body =>
+    if rd16 l0 l1 > body.length then none
+    else if rd16 t0 t1 = 6 then
+      (if validUtf8 (body.take (rd16 l0 l1)) then some (off, body.take (rd16 l0 l1)) else none)
+    else usernameLoop (off + 4 + rd16 l0 l1 + pad4 (rd16 l0 l1)) (body.drop (rd16 l0 l1 + pad4 (rd16 l0 l1)))
+  | _ => none
+termination_by rest.length
+decreasing_by simp only [List.length_drop, List.length_cons]; omega
+
+/-- `shared_tcp::username_from_stun_bytes` (with the offset where it was found) -/
+def usernameOf (pkt : Bytes) : Option (Nat × Bytes) :=
+  match pkt with
+  | _ :: _ :: l0 :: l1 :: rest =>
+    if rest.length < 16 then none
+    else if rd16 l0 l1 + 20 ≠ pkt.length then none
+    else usernameLoop 20 (pkt.drop 20)
+  | _ => none
+
+/-- `username.split_once(':').map(|(ours, _)| ours) == Some(local ufrag)` -/
+def oursIs (username ufrag : Bytes) : Bool :=
+  username.contains 58 && username.takeWhile (· ≠ 58) = ufrag
+
+/-- `stun_request_authenticated` -/
+def codeAuth (P : Prims) (ufrag pwd pkt : Bytes) : Bool :=
+  match usernameOf pkt with
+  | some (_, u) => oursIs u ufrag && verifyMI P pwd pkt
+  | none => false
+
+/-- `shared_tcp::peer_ufrag_from_binding_request`: the routing key of the shared UDP / TCP demultiplexers
+(cheap header classification + USERNAME up to the first `:`; nothing is verified here) -/
+def peerUfrag (pkt : Bytes) : Option Bytes :=
+  match pkt with
+  | b0 :: b1 :: _ =>
+    if pkt.length < 20 then none
+    else if (rd16 b0 b1 &&& 0x3EEF) ≠ 0x0001 ∨ (rd16 b0 b1 &&& 0x0110) ≠ 0 then none
+    else match usernameOf pkt with
+      | some (_, u) => if u.contains 58 then some (u.takeWhile (· ≠ 58)) else none
+      | none => none
+  | _ => none
+
 /-! ### from bytes to the abstract input -/
-
-/-- USERNAME value found by the independent RFC walk -/
-def usernameOf (pkt : Bytes) : Option Bytes :=
-  match StunRfc.walk 20 (pkt.drop 20) with
-  | some attrs => (attrs.find? (fun a => a.2.1 = 0x0006)).map (·.2.2)
-  | none => none
-
-/-- RFC 8445 §7.3: USERNAME is `<local ufrag>:<remote ufrag>` and MESSAGE-INTEGRITY verifies under the
-local password -/
-def isAuthentic (P : Prims) (ufrag pwd : Bytes) (pkt : Bytes) : Bool :=
-  (match usernameOf pkt with
-   | some u => (ufrag ++ [58]).isPrefixOf u
-   | none => false) && StunRfc.integrityOk P pwd pkt
 
 def classify (P : Prims) (ufrag pwd : Bytes) (pkt : Bytes) : Inp :=
   match pkt with
@@ -225,11 +282,20 @@ def classify (P : Prims) (ufrag pwd : Bytes) (pkt : Bytes) : Inp :=
       match decode pkt with
       | .ok d =>
         match d.cls with
-        | .request => .request ⟨d.tx, d.useCandidate, isAuthentic P ufrag pwd pkt⟩
+        | .request => .request ⟨d.tx, d.useCandidate, codeAuth P ufrag pwd pkt⟩
         | .success => .response d.tx false
         | .error => .response d.tx true
         | .indication => .indication
       | .error _ => .undecodable
     else .data
+
+/-- the independent reading (strict RFC 5389 walk): USERNAME starts with `<ufrag>:` and
+MESSAGE-INTEGRITY verifies under the password — used to cross-check `codeAuth` on well-formed messages -/
+def rfcAuthentic (P : Prims) (ufrag pwd : Bytes) (pkt : Bytes) : Bool :=
+  (match StunRfc.walk 20 (pkt.drop 20) with
+   | some attrs => match attrs.find? (fun a => a.2.1 = 0x0006) with
+     | some a => (ufrag ++ [58]).isPrefixOf a.2.2
+     | none => false
+   | none => false) && StunRfc.integrityOk P pwd pkt
 
 end RtcModel.IceAuth
